@@ -1,0 +1,62 @@
+// Copyright 2018-present the CoreDHCP Authors. All rights reserved
+// This source code is licensed under the MIT license found in the
+// LICENSE file in the root directory of this source tree.
+
+//go:build verif
+
+package prefix
+
+// Verification hooks (build tag `verif`): the plugin reads the wall clock and
+// its leases last an hour, so a test cannot wait for one to run out. VerifAge
+// makes the leases recorded so far look d older instead.
+// Nothing in this file is compiled into a normal build.
+
+import (
+	"sync"
+	"time"
+)
+
+var (
+	verifMu       sync.Mutex
+	verifHandlers []*Handler
+	verifSeen     sync.Map // *Handler -> struct{}
+)
+
+// verifTrack is called at the top of Handle: it remembers the handlers that
+// have seen a request
+func verifTrack(h *Handler) {
+	if _, dup := verifSeen.LoadOrStore(h, struct{}{}); dup {
+		return
+	}
+	verifMu.Lock()
+	verifHandlers = append(verifHandlers, h)
+	verifMu.Unlock()
+}
+
+// VerifAge moves the expiry of every lease recorded by any handler d into the
+// past, as if d had gone by without any message
+func VerifAge(d time.Duration) {
+	verifMu.Lock()
+	hs := append([]*Handler(nil), verifHandlers...)
+	verifMu.Unlock()
+	for _, h := range hs {
+		h.Lock()
+		for k, ls := range h.Records {
+			for i := range ls {
+				ls[i].Expire = ls[i].Expire.Add(-d)
+			}
+			h.Records[k] = ls
+		}
+		h.Unlock()
+	}
+}
+
+// VerifReset forgets the handlers created so far (their state is not touched)
+func VerifReset() {
+	verifMu.Lock()
+	for _, h := range verifHandlers {
+		verifSeen.Delete(h)
+	}
+	verifHandlers = nil
+	verifMu.Unlock()
+}
